@@ -12,7 +12,9 @@ Source of the semantics: https://docs.snowflake.com/en/sql-reference/sql/merge
   * a clause without AND must be the last one of its kind (MATCHED / NOT MATCHED) -- `valid_clause_list`;
   * a merge in which a target row joins more than one source row is nondeterministic: outside the domain, the
     reference refuses it (NonDeterministic);
-  * a statement that would store NULL in a NOT NULL column fails and changes nothing (`merge(..., not_null=...)`).
+  * a statement that would store NULL in a NOT NULL column fails and changes nothing (`merge(..., not_null=...)`);
+  * a statement one of whose INSERT clauses lists n columns but m <> n values is rejected as a whole whatever the data
+    ("Insert value list does not match column list"): `static_error`.
 
 Rows are tuples over the column lists given by the caller. Expressions are small ASTs over a joined pair:
   ('t', col) | ('s', col) | ('lit', value)
@@ -111,6 +113,15 @@ def _updated(c, t, s, tcols, scols):
     return tuple(r)
 
 
+def static_error(clauses):
+    """index of the first INSERT clause whose column list and value list differ in length (the statement does not
+    compile in Snowflake: nothing is carried out), or None"""
+    for i, c in enumerate(clauses):
+        if c[0] == "insert" and c[2] is not None and len(c[2]) != len(c[3]):
+            return i
+    return None
+
+
 def _inserted(c, s, tcols, scols):
     cols = c[2] if c[2] is not None else tcols
     if len(cols) != len(c[3]):
@@ -146,6 +157,21 @@ def merge(trows, srows, tcols, scols, on, clauses, not_null=()):
     tassign, sassign = assign(trows, srows, tcols, scols, on, clauses)
     per_clause = [0] * len(clauses)
     out, written = [], []
+    bad = static_error(clauses)
+    if bad is not None:
+        # rejected as a whole; per_clause still says how many rows each clause WOULD have taken (used by the check to
+        # decide whether a clause before the offending one had anything to do)
+        for _j, ci in tassign:
+            if ci is not None:
+                per_clause[ci] += 1
+        for ci in sassign:
+            if ci is not None and ci != "matched":
+                per_clause[ci] += 1
+        counts = {}
+        for c, n in zip(clauses, per_clause):
+            counts[c[0]] = counts.get(c[0], 0) + n
+        return {"rows": list(trows), "counts": counts, "per_clause": per_clause, "error": True, "static_error": bad,
+                "tassign": tassign, "sassign": sassign}  # fmt: skip
     for t, (j, ci) in zip(trows, tassign):
         if ci is None:
             out.append(t)
@@ -178,6 +204,8 @@ def merge(trows, srows, tcols, scols, on, clauses, not_null=()):
 
 def first_failing_clause(trows, srows, tcols, scols, on, clauses, not_null):
     """index (statement order) of the first clause one of whose written rows has NULL in a NOT NULL column, or None"""
+    if static_error(clauses) is not None:
+        return static_error(clauses)
     tassign, sassign = assign(trows, srows, tcols, scols, on, clauses)
     bad = set()
     for t, (j, ci) in zip(trows, tassign):
